@@ -27,12 +27,12 @@
    invariants hold, *_asbuilt.cfg as the code behaves (TLC then produces the
    shortest counterexample program, which the harness replays on the code).
 
-   Machine: Init picks a program; Declare (get_symbol: shapes), one
-   TranslateEquation / TranslateInitial step per equation (exitEquation ...),
+   Machine: Init picks a program; one TranslateEquation step per equation
+   (exitEquation ..., first the equation section, then the initial one);
    Finish (exitClass: discard empty, veccat).  Invariants compare, per
    equation and evaluation point, the value of the lowered form with the
    declarative rows.                                                         *)
-EXTENDS EvalFam, Json, SequencesExt
+EXTENDS EvalFam, Json, SequencesExt, IOUtils
 
 CONSTANTS DivMapped,              \* "/" maps to an MX method that exists        (as built: "__div__", absent in casadi 3.8)
           SlicesRangeChecked,     \* slice bounds are checked against 1..n       (as built: unchecked Python slice)
@@ -172,7 +172,7 @@ HasNegLit(e) == (e.k = "un" /\ e.n = "-" /\ e.a[1].k = "lit") \/ (e.k = "lit" /\
 GetInteger(e, g) ==
     IF MentionsLoopVar(e, g) THEN [kind |-> "mx"]
     ELSE IF HasNegLit(e) THEN [kind |-> "raise"]
-    ELSE LET q == IntOf(e, Cx(g.P, EnvAt(g.P, 1), NoLoc))
+    ELSE LET q == IntOf(e, Cx(g.P, SEnv(g.P), NoLoc))
          IN  IF IsUnd(q) THEN [kind |-> "raise"] ELSE [kind |-> "int", i |-> q[1]]
 
 (* CasADi's handling of a Python slice(start, stop) on a dimension of length len *)
@@ -405,7 +405,7 @@ ISyms(x) ==
 
 (* 1-based index values of a placeholder over the loop values: F(index_expr) mapped over f.values *)
 IdxVals(s, n, vals, P) ==
-    [t \in DOMAIN vals |-> IntOf(s.ie, Cx(P, EnvAt(P, 1), Bind(NoLoc, n, vals[t])))]
+    [t \in DOMAIN vals |-> IntOf(s.ie, Cx(P, SEnv(P), Bind(NoLoc, n, vals[t])))]
 AxisLen(s, P) == LET d == DimsOf(P, s.n) IN IF Len(d) = 1 THEN d[1] ELSE IF s.cs = "A" THEN d[1] ELSE d[2]
 ISymInRange(s, n, vals, P) ==
     \A t \in DOMAIN vals :
@@ -500,71 +500,77 @@ Run(x, env, it, P) ==
                 ELSE IF x.first THEN ov[1] ELSE MVcat(ov)
       [] OTHER -> MErr
 
-MEnvAt(P, t) == [x \in EnvNames(P) |-> ToM(EnvAt(P, t)[x])]
+MEnvOf(e) == [x \in DOMAIN e |-> ToM(e[x])]
 
-(* rows of one lowered equation at point t, in the order veccat gives them; "raise" / "err" markers *)
-GenRows(low, P, t) ==
+(* rows of one lowered equation in environment e, in the order veccat gives them; "raise" / "err" markers *)
+GenRows(low, P, e) ==
     IF IsRaise(low) THEN [st |-> "raise", d |-> <<>>]
-    ELSE LET m == Run(low, MEnvAt(P, t), NoIter, P)
+    ELSE LET m == Run(low, MEnvOf(e), NoIter, P)
          IN  IF MIsErr(m) THEN [st |-> "err", d |-> <<>>] ELSE [st |-> "ok", d |-> m.d]
 
-DeclRows(eq, P, t) ==
-    LET v == EqRows(eq, CxAt(P, t))
+DeclRows(eq, P, e) ==
+    LET v == EqRows(eq, Cx(P, e, NoLoc))
     IN  IF v = IdxErr THEN [st |-> "raise", d |-> <<>>] ELSE IF IsErr(v) THEN [st |-> "err", d |-> <<>>] ELSE [st |-> "ok", d |-> v.d]
 
 -----------------------------------------------------------------------------
 (* the machine *)
 (* (the chosen item is carried in the state: TLC does not cache ItemSet, whose evaluation needs RECURSIVE operators) *)
 VARIABLES item,    \* the program [fam, prog, extra]
-          pc,      \* "declare" | "equations" | "initial" | "done"
-          k,       \* equations translated so far in the current section
-          decl,    \* declarative side: per translated equation, per point, its rows   (dae section then initial section)
-          gen      \* operational side, same layout
-vars == <<item, pc, k, decl, gen>>
+          pc,      \* "translate" | "done"
+          k,       \* equations translated so far (the equation section first, then the initial equation section)
+          decl,    \* declarative side: per translated equation, per point, its rows
+          gen,     \* operational side, same layout
+          env      \* the evaluation points: per point the value of every variable, der(.) and time
+vars == <<item, pc, k, decl, gen, env>>
 
 P0 == item.prog
 Pts == 1..NPts
-
-Init == /\ item \in ItemSet /\ pc = "declare" /\ k = 0 /\ decl = <<>> /\ gen = <<>>
-
-(* get_symbol for every component: shapes must be literal / pinned integers *)
-Declare == /\ pc = "declare" /\ pc' = "equations" /\ UNCHANGED <<item, k, decl, gen>>
-
-Translate(eq) ==
-    LET low == LowerEq(eq, G(P0, NoLoop, FALSE))
-    IN  /\ decl' = Append(decl, [t \in Pts |-> DeclRows(eq, P0, t)])
-        /\ gen'  = Append(gen,  [t \in Pts |-> GenRows(low, P0, t)])
-
-TranslateEquation == /\ pc = "equations" /\ k < Len(P0.eqs)
-                     /\ Translate(P0.eqs[k + 1]) /\ k' = k + 1 /\ UNCHANGED <<item, pc>>
-EquationsDone     == /\ pc = "equations" /\ k = Len(P0.eqs) /\ pc' = "initial" /\ k' = 0 /\ UNCHANGED <<item, decl, gen>>
-TranslateInitial  == /\ pc = "initial" /\ k < Len(P0.ieqs)
-                     /\ Translate(P0.ieqs[k + 1]) /\ k' = k + 1 /\ UNCHANGED <<item, pc>>
-
 NE == Len(P0.eqs)
+AllEqs == P0.eqs \o P0.ieqs
+
+(* the harness may split a family over several TLC processes: shard VF_SHARD of VF_NSHARDS (environment) *)
+NShards == IF "VF_NSHARDS" \in DOMAIN IOEnv THEN atoi(IOEnv.VF_NSHARDS) ELSE 1
+ShardNo == IF "VF_SHARD" \in DOMAIN IOEnv THEN atoi(IOEnv.VF_SHARD) ELSE 0
+Shard == IF NShards = 1 THEN ItemSet
+         ELSE LET its == SetToSeq(ItemSet) IN {its[i] : i \in {j \in DOMAIN its : j % NShards = ShardNo}}
+
+(* Generator.__init__ + get_symbol: the shapes are the declared (literal / pinned) dimensions *)
+Init == /\ item \in Shard /\ pc = "translate" /\ k = 0 /\ decl = <<>> /\ gen = <<>>
+        /\ env = [t \in Pts |-> EnvAt(item.prog, t)]
+
+(* exitEquation / exitIfEquation / exitForEquation for the next equation of the walk *)
+TranslateEquation ==
+    /\ pc = "translate" /\ k < Len(AllEqs)
+    /\ LET eq  == AllEqs[k + 1]
+           low == LowerEq(eq, G(P0, NoLoop, FALSE))
+       IN  /\ decl' = Append(decl, [t \in Pts |-> DeclRows(eq, P0, env[t])])
+           /\ gen'  = Append(gen,  [t \in Pts |-> GenRows(low, P0, env[t])])
+    /\ k' = k + 1 /\ UNCHANGED <<item, pc, env>>
+
 Rejects(side) == \E i \in DOMAIN side : side[i][1].st = "raise"
 PtDefined(t) == \A i \in DOMAIN decl : decl[i][t].st = "ok" /\ \A j \in DOMAIN decl[i][t].d : ~IsUnd(decl[i][t].d[j])
 DefinedPts == SelectSeq(<<1, 2, 3, 4>>, PtDefined)
 
 ElemRow(P, t) == LET e == P.eqs[1]
-                     cx == CxAt(P, t)
+                     cx == Cx(P, env[t], NoLoc)
                  IN  [f |-> e.a[2].n, lhs |-> Val(e.a[1], cx).d[1], arg |-> Val(e.a[2].a[1], cx).d[1]]
 Expect ==
-    IF Rejects(decl) THEN [kind |-> "reject"]
+    IF item.fam = "index" /\ HasEmptySlice(P0) THEN [kind |-> "any"]
+    ELSE IF Rejects(decl) THEN [kind |-> "reject"]
     ELSE IF item.fam = "elem"
-         THEN [kind |-> "elem", pts |-> [t \in Pts |-> [t |-> t, env |-> EnvAt(P0, t), row |-> ElemRow(P0, t)]]]
+         THEN [kind |-> "elem", pts |-> [t \in Pts |-> [t |-> t, env |-> env[t], row |-> ElemRow(P0, t)]]]
     ELSE [kind |-> "rows",
           pts |-> [j \in DOMAIN DefinedPts |->
                      LET t == DefinedPts[j]
-                     IN  [t |-> t, env |-> EnvAt(P0, t),
+                     IN  [t |-> t, env |-> env[t],
                           dae  |-> [i \in 1..NE |-> decl[i][t].d],
                           init |-> [i \in 1..(Len(decl) - NE) |-> decl[NE + i][t].d]]]]
 
-Finish == /\ pc = "initial" /\ k = Len(P0.ieqs) /\ pc' = "done" /\ UNCHANGED <<item, k, decl, gen>>
-          /\ PrintT(<<"PROG", ToJson([prog |-> P0, tags |-> TagsOf(item), expect |-> Expect,
-                                      genrejects |-> Rejects(gen)])>>)
+(* exitClass: the translated equations become model.equations / initial_equations; the oracle line is printed *)
+Finish == /\ pc = "translate" /\ k = Len(AllEqs) /\ pc' = "done" /\ UNCHANGED <<item, k, decl, gen, env>>
+          /\ PrintT(<<"PROG", ToJson([prog |-> P0, tags |-> TagsOf(item), expect |-> Expect, genrejects |-> Rejects(gen)])>>)
 
-Next == Declare \/ TranslateEquation \/ EquationsDone \/ TranslateInitial \/ Finish
+Next == TranslateEquation \/ Finish
 Spec == Init /\ [][Next]_vars
 
 -----------------------------------------------------------------------------
@@ -572,21 +578,21 @@ Spec == Init /\ [][Next]_vars
 Bag(s) == [x \in {s[i] : i \in DOMAIN s} |-> Cardinality({i \in DOMAIN s : s[i] = x})]
 
 (* family definitions are well typed *)
-WellTyped == \A i \in DOMAIN decl : \A t \in Pts : decl[i][t].st # "err"
+WellTyped == pc = "done" => \A i \in DOMAIN decl : \A t \in Pts : decl[i][t].st # "err"
 
 (* C23 on the model: the generator raises exactly for the programs that violate IndexOK *)
-RejectsIffIndexBad == \A i \in DOMAIN decl : (decl[i][1].st = "raise") <=> (gen[i][1].st = "raise")
+RejectsIffIndexBad == (pc = "done" /\ ~HasEmptySlice(P0)) => \A i \in DOMAIN decl : (decl[i][1].st = "raise") <=> (gen[i][1].st = "raise")
 
 (* C11 on the model: for every translated equation and every point where the meaning is defined,
    the lowered form has the same rows (as a bag: the order inside one equation is not prescribed) *)
 GenValueAgrees ==
-    \A i \in DOMAIN decl : \A t \in Pts :
+    pc = "done" => \A i \in DOMAIN decl : \A t \in Pts :
         (decl[i][t].st = "ok" /\ gen[i][t].st # "raise" /\ \A j \in DOMAIN decl[i][t].d : ~IsUnd(decl[i][t].d[j]))
             => (gen[i][t].st = "ok" /\ Bag(gen[i][t].d) = Bag(decl[i][t].d))
 
 (* sanity theorems of the reference semantics the property relies on (Eval_sanity.cfg) *)
 SanityIfEq ==   \* an if-equation is the if-expression of its residuals
-    \A t \in Pts : LET cx == CxAt(P0, t) IN
+    \A t \in Pts : LET cx == Cx(P0, env[t], NoLoc) IN
         \A i \in DOMAIN P0.eqs :
             LET e == P0.eqs[i] IN
             (e.k = "ifeq" /\ Len(e.a) = 3 /\ Len(e.a[2].a) = 1 /\ e.a[2].a[1].k = "eq" /\ e.a[3].a[1].k = "eq") =>
@@ -594,7 +600,7 @@ SanityIfEq ==   \* an if-equation is the if-expression of its residuals
                     asIf == Eq(IfE(<<e.a[1], Bin("-", a.a[1], a.a[2]), Bin("-", b.a[1], b.a[2])>>), ILit(0))
                 IN  EqRows(e, cx) = EqRows(asIf, cx) \/ HasUnd(EqRows(e, cx))
 SanityLoop ==   \* a for-equation is its unrolling
-    \A t \in Pts : LET cx == CxAt(P0, t) IN
+    \A t \in Pts : LET cx == Cx(P0, env[t], NoLoc) IN
         \A i \in DOMAIN P0.eqs :
             LET e == P0.eqs[i] IN
             (e.k = "for" /\ Len(e.a) = 3 /\ ~IsUnd(IntOf(e.a[1], cx)) /\ ~IsUnd(IntOf(e.a[2], cx))) =>
